@@ -125,6 +125,24 @@ CLAIMED = {
             "Trusted: TLC, Apalache, BigNat arithmetic, the harness's biasing of signed quantities; time_track for "
             "non-dyadic floats is not covered.",
             "DESIGN.md 3.10, 5/C12"),
+    "C13": ("TLA+ TdmsScaling: dataflow evaluation of NI_Scale graphs, lookup channel->group->file, status / unsupported "
+            "type, scale count given or inferred; TLC enumerates graphs x wiring x placement and the expected values; "
+            "every case written as properties and read eagerly and lazily (full, window, slice, chunks, index)",
+            "Exhaustive enumeration within bounds (1-3 scales over Linear/Polynomial/Table/no-op/Add/Subtract with every "
+            "input-source wiring, small-integer coefficients so float64 is exact, 3-10 raw types, placement and "
+            "shadowing across levels) with spec->code conformance of values, elementwise-ness and purity (raw data "
+            "unchanged before/after, in place and via unscaled reads).",
+            "Trusted: TLC, integer arithmetic of the spec as the exact value of the float evaluation (small integers), "
+            "encoder. Integer wrap-around in Add/Subtract on raw unsigned data is not judged.",
+            "DESIGN.md 3.11, 5/C13"),
+    "C14": ("TLA+ TdmsScaling.DType (NumPy promotion lattice transcribed) + per-type dtypes; TLC enumerates scaled cases "
+            "(incl. sensor scales via dtype) and unscaled channels of all 17 types; every kind of read executed and "
+            "its dtype / length compared with channel.dtype and the specification",
+            "Spec->code conformance on every enumerated case x every read kind (full, ellipsis, window, slices, stepped, "
+            "reversed, empty, beyond the end, both chunk streams, .data) x eager/lazy x zero-length twin x "
+            "raw_timestamps: ndarray, dtype == channel.dtype == specification's dtype, full reads have len(channel).",
+            "Trusted: TLC, the transcription of numpy.result_type for the 10 numeric types.",
+            "DESIGN.md 3.11, 5/C14"),
     "C15": ("TLA+ TdmsSegments: byte order is an attribute of the encoding only; TLC enumerates per-segment byte-order "
             "assignments, each file replayed in 4 byte-order variants against the one specification view",
             "Model checking + spec->code conformance: all 2^k per-segment byte-order assignments (k<=2) over "
